@@ -71,7 +71,10 @@ def run_case(case):
                 # the library's own checker vetoed its own output: only a C08 matter when the output was valid
                 continue
             frame, cls = common.innermost_frame_info(exc)
-            feats = features(ast, m)
+            feats = []
+            if isinstance(exc, KeyError) and exc.args:
+                k = exc.args[0]
+                feats.append("key=" + ("derived-factor" if type(k).__name__ == "DerivedFactor" else type(k).__name__))
             sig = "C08/%s@%s%s/%s%s" % (type(exc).__name__, frame, ("[" + cls + "]") if cls else "",
                                        "sat" if strat != "RandomGen" else "random", ("/" + ",".join(feats)) if feats else "")
             viols.append((sig, "%s raised %s: %s" % (strat, type(exc).__name__, str(exc)[:200])))
